@@ -156,3 +156,77 @@ func VerifH_C07_grow() {
 	}
 	vCover("C07.grow.negative-after-decrease", which == 2 && pb.window < 0)
 }
+
+// One sendPending call for a streamed request body whose reader returns
+// arbitrary results within the io.Reader contract (0..16384 bytes per read,
+// io.EOF with or after the last bytes, or an error) for up to 2 (quick) / 3
+// (thorough) reads, declared length arbitrary or unknown, windows any int32:
+// DATA stays within both windows and the frame size, nothing the reader
+// delivered is dropped or sent twice while window remains, and END_STREAM goes
+// out exactly once when the body is finished.
+//
+//verif:harness prop=C07,C02 unwind=10 timeout=600 timeoutT=3000 use=vStubDataSetDataAlias,vStubWriteToRecord
+func VerifH_C07_stream() {
+	ws, wc := int32(vU32()), int32(vU32())
+	c, pb, _ := vPendingConn(1, ws, wc)
+	rd := &vScriptReader{}
+	reads := vPick(2, 3)
+	rd.pos = 3 - reads
+	for i := 3 - reads; i < 3; i++ {
+		rd.n[i] = vInt()
+		vAssume(rd.n[i] >= 0 && rd.n[i] <= 16384)
+		rd.eof[i] = vBool()
+		rd.fail[i] = vBool()
+		vAssume(!(rd.fail[i] && rd.eof[i]))
+		vAssume(rd.n[i] > 0 || rd.eof[i] || rd.fail[i])
+	}
+	pb.body = nil
+	pb.stream = rd
+	pb.buf = vAbstractBytes(16384)
+	pb.size = int64(vInt())
+	vAssume(pb.size >= -1 && pb.size <= 1<<20)
+	vAssume(pb.size < 0 || int64(rd.n[0]+rd.n[1]+rd.n[2]) <= pb.size)
+	pb.drained = pb.size == 0
+	vSent = nil
+
+	err := c.sendPending(1)
+
+	vAssert(err == nil, "C07.stream.no-error")
+	frames := vSentFrames(c)
+	sent, ended, rst := 0, 0, false
+	wsl, wcl := int64(ws), int64(wc)
+	for _, f := range frames {
+		vAssert(f.stream == 1, "C07.stream.on-the-stream")
+		if f.kind == FrameResetStream {
+			rst = true
+			continue
+		}
+		vAssert(f.kind == FrameData && ended == 0, "C07.stream.nothing-after-end-stream")
+		n := int64(len(f.data))
+		vAssert(n <= 16384, "C07.stream.frame-size")
+		vAssert(n == 0 || (n <= wsl && n <= wcl), "C07.stream.within-windows")
+		wsl, wcl = wsl-n, wcl-n
+		sent += int(n)
+		if f.endStream {
+			ended++
+		}
+	}
+	// a reset goes through c.out, not through the recorded writer
+	for _, fr := range vDrainOut(c) {
+		if _, ok := fr.Body().(*RstStream); ok {
+			rst = true
+		}
+	}
+	vAssert(sent <= rd.given, "C07.stream.only-bytes-read")
+	_, still := c.pending[1]
+	if !still && !rst {
+		vAssert(ended == 1, "C07.stream.finished-means-end-stream")
+		vAssert(sent == rd.given, "C07.stream.every-byte-read-was-sent")
+	}
+	if still {
+		vAssert(ended == 0, "C07.stream.still-pending-means-not-ended")
+		vAssert(wsl <= 0 || wcl <= 0, "C07.stream.stops-only-when-a-window-is-exhausted")
+	}
+	vCover("C07.stream.eof-with-data", ended == 1 && sent > 0 && rd.pos == 3-reads+1)
+	vCover("C07.stream.reader-error", rst)
+}
